@@ -51,12 +51,12 @@ def main():
     o = ("c10",)
     harness.oracles.ORACLES.update(oracles2.ORACLES)
     # k=0: every shape concretely (chosen through a symbolic index so that the run is sharded and counted uniformly)
-    sample = sh[:600] if chk.quick else sh
+    sample = list(dict.fromkeys(NESTED + (sh[:600] if chk.quick else sh)))
 
     def tf0(ex):
         return sample[harness.choose_index(ex, "shape", len(sample))]
     chk.run("shapes k=0", harness.A_harness(tf0, path_oracles=o), f"{len(sample)} f-string shapes", wall=120 if chk.quick else 1200, vacuity=("ok",))
-    hs = sh[:120] if chk.quick else sh[:1500]
+    hs = NESTED + (sh[:120] if chk.quick else sh[:1500])
     pairs = hole_pairs(chk, hs, 3 if chk.quick else 0, 80)
     chk.extra["hole_positions"] = len(pairs)
 
